@@ -39,7 +39,7 @@ ASSUMPTIONS = [
     "a child that does not answer within 30 s is inconclusive (exit 2)",
 ]
 EXAMPLES = {"quick": 8, "thorough": 120}
-MIN_NONTRIVIAL = {"quick": 30, "thorough": 600}
+MIN_NONTRIVIAL = {"quick": 30, "thorough": 250}
 CASE_TIMEOUT = 120
 
 FMTS = list("BHIQbhiqx") + list("BHIQbhiqx") + ["3B", "3H", "2I", "5B",
